@@ -277,3 +277,95 @@ theorem runEvs_roundtrip (root : P) :
       exact key
 
 end Car.Extract
+
+namespace Car.Extract
+open Car Car.FS
+
+/-- a resolved path whose last component is a directory: every prefix is a directory -/
+theorem dirs_of_eval (fs : Fs) (p root : P) (h : evalSymlinks fs p = .ok root) (hd : lookup fs root = some .dir) :
+    Dirs fs root ∧ Clean root := by
+  unfold evalSymlinks at h
+  cases hw : walk fs true goLoops [] p with
+  | error e => simp [hw] at h
+  | ok r =>
+    cases r with
+    | missingLast a b => simp [hw] at h
+    | found q =>
+      simp only [hw] at h
+      injection h with h; subst h
+      obtain ⟨hc, hdirs, _⟩ := walk_ok fs true goLoops [] p (.found q) Clean.nil (Dirs.nil fs) hw
+      refine ⟨?_, hc⟩
+      intro x hx
+      by_cases e : x = q
+      · subst e; exact hd
+      · apply hdirs
+        have hlen : x.length < q.length := by
+          have := hx.length_le
+          rcases Nat.lt_or_ge x.length q.length with h | h
+          · exact h
+          · exact absurd (hx.eq_of_length (by omega)) e
+        rw [List.prefix_iff_eq_take] at hx ⊢
+        rw [hx, List.length_take, List.dropLast_eq_take, List.take_take]
+        congr 1
+        omega
+
+theorem denote_ne_nil : ∀ (evs : List Ev) (st : List P) (p : P), p ∈ (denote st evs).map (·.1) → p ≠ [] := by
+  intro evs
+  induction evs with
+  | nil => intro st p hp; simp [denote] at hp
+  | cons e es ih =>
+    intro st p hp
+    cases e <;> simp only [denote, List.map_cons, List.mem_cons, List.map_nil, List.not_mem_nil] at hp
+    · rcases hp with hp | hp
+      · subst hp; simp
+      · exact ih _ p hp
+    · exact ih _ p hp
+    · rcases hp with hp | hp
+      · subst hp; simp
+      · exact ih _ p hp
+    · rcases hp with hp | hp
+      · subst hp; simp
+      · exact ih _ p hp
+    · exact ih _ p hp
+
+/-- **Extraction half of the round trip.** Into an existing, empty output directory, the extraction
+    of a single directory root whose trace is a faithful tree walk succeeds, and the output
+    directory then holds exactly the denoted tree: every denoted path with its node, nothing else. -/
+theorem extract_roundtrip (fs : Fs) (outDir root : P) (evs : List Ev)
+    (hroot : evalSymlinks fs outDir = .ok root) (hd : lookup fs root = some .dir)
+    (hempty : ∀ q, q ≠ [] → lookup fs (root ++ q) = none)
+    (hg : ∀ e ∈ evs, GoodEv e) (hnd : ((denote [[]] evs).map (·.1)).Nodup) :
+    (extractAll outDir fs [.dir evs]).2 = .ok () ∧
+    ∀ q, q ≠ [] → lookup (extractAll outDir fs [.dir evs]).1 (root ++ q) = (denote [[]] evs).lookup q := by
+  obtain ⟨hdirs, hclean⟩ := dirs_of_eval fs outDir root hroot hd
+  -- extractDir("/"): resolvePath(root, "/") and MkdirAll(root) change nothing
+  have hrp : resolvePath fs root [] = .ok root := by
+    unfold resolvePath
+    simp only [List.append_nil]
+    have h1 : evalSymlinks fs root.dropLast = .ok root.dropLast := by
+      unfold evalSymlinks; rw [dirs_walk fs _ hdirs.dropLast hclean.dropLast]
+    have h2 : lstat fs root = .ok .dir := by
+      unfold lstat; rw [dirs_walk fs _ hdirs hclean]; simp [hd]
+    simp [h1, h2]
+  have hmk : mkdirAll fs root = (fs, .ok ()) := by
+    have hst : stat fs root = .ok .dir := stat_of_found fs _ _ hd (dirs_walk fs root hdirs hclean true kernelLoops)
+    unfold mkdirAll
+    cases hk : root.length <;> simp [mkdirAllAux, hst]
+  have hpaths : ∀ (st : List P) (p : P), p ∈ (denote st evs).map (·.1) → p ≠ [] := fun st p hp => denote_ne_nil evs st p hp
+  have key := runEvs_roundtrip root evs { fs := fs, stack := [[]] } hg
+    ⟨⟨hdirs, hclean⟩, by intro p hp; simp at hp; subst hp; simpa using ⟨hdirs, hclean⟩⟩ hnd
+    (fun p hp => hempty p (hpaths _ p hp))
+  simp only [extractAll, extractRoot, hroot, hrp, hmk]
+  cases hr : runEvs root { fs := fs, stack := [[]] } evs with
+  | mk st res =>
+    rw [hr] at key
+    obtain ⟨k1, k2⟩ := key
+    simp only at k1 k2 ⊢
+    subst k1
+    refine ⟨rfl, fun q hq => ?_⟩
+    rw [k2 q]
+    cases hl : (denote [[]] evs).lookup q with
+    | some n => rfl
+    | none => exact hempty q hq
+
+end Car.Extract
